@@ -327,6 +327,18 @@ class Runner:
                             # list(dm), tuple unpacking): each must still be the row it was yielded for
                             rows = list(dm)
                             setattr(rows[a['i']], o['name'], v)
+                        elif a.get('via') == 'kept':
+                            # a Row object taken earlier in the history (dm[i], kept by the caller) and used again after
+                            # other operations on its table (rename, row / column deletion, resize, new columns): it
+                            # still denotes row i of the table as it is NOW.  Only in-range indices are kept (an
+                            # out-of-range Row raises at another point than dm[i] does).
+                            kept = self.__dict__.setdefault('kept', {})
+                            key_ = (o['t'], a['i'])
+                            row = kept.get(key_)
+                            if row is None or row._datamatrix is not dm or not (-len(dm) <= a['i'] < len(dm)):
+                                row = dm[a['i']]
+                                kept[key_] = row
+                            setattr(row, o['name'], v)
                         else:
                             setattr(dm[a['i']], o['name'], v)
                     else:
